@@ -451,6 +451,7 @@ func checkC18(w *World, r *Report) {
 	r.floor("mutating operations in render-reachable functions", nSinks, 50)
 	checkNoAliasesIntoData(w, r, reach)
 	checkContextValuesCopiedAsGiven(w, r)
+	checkNoWritingMethodsOnData(w, r, f, reach)
 
 	// R18.1
 	n := 0
@@ -635,4 +636,56 @@ func checkContextValuesCopiedAsGiven(w *World, r *Report) {
 		})
 	}
 	r.floor("copies of a caller's map into a render context", n, 1)
+}
+
+// checkNoWritingMethodsOnData — R18.6: a value from the context is never the receiver of a method
+// that writes its receiver.  Where a data value (an interface{} parameter, an evaluation result,
+// an element of one) is asserted to a pointer type of another package and a method of that type is
+// called on it, the method is one of the known read-only ones (String, Cmp, Sign, Int64, Text,
+// Len …).  The arithmetic methods of math/big (z.Neg(x), z.Add(x, y) …) store into z: `b.Neg(b)` on
+// the caller's *big.Int negates the caller's number.
+func checkNoWritingMethodsOnData(w *World, r *Report, f *freshness, reach map[*ssa.Function]bool) {
+	readOnly := map[string]bool{
+		"String": true, "Error": true, "Cmp": true, "CmpAbs": true, "Sign": true, "Int64": true, "Uint64": true,
+		"IsInt64": true, "IsUint64": true, "Text": true, "Bytes": true, "BitLen": true, "Format": true, "Len": true,
+		"Cap": true, "Float64": true, "Float32": true, "IsInt": true, "Num": true, "Denom": true, "Equal": true,
+		"Before": true, "After": true, "Unix": true, "UnixNano": true, "IsZero": true, "MarshalJSON": true,
+		"MarshalText": true, "GoString": true, "Append": true, "FloatString": true, "ProbablyPrime": true, "Bit": true,
+		"TrailingZeroBits": true, "Bits": true, "FillBytes": true, "Load": true,
+	}
+	n := 0
+	for _, fn := range w.pkgFuncs() {
+		if !reach[fn] {
+			continue
+		}
+		instrsOf(fn, func(in ssa.Instruction) {
+			c, ok := in.(*ssa.Call)
+			if !ok || c.Call.IsInvoke() || len(c.Call.Args) == 0 {
+				return
+			}
+			g := calleeFunc(c)
+			if g == nil || g.Pkg() == nil || g.Pkg().Path() == twigPath || g.Pkg().Path() == "reflect" || g.Pkg().Path() == "sync" {
+				return
+			}
+			sig, ok := g.Type().(*types.Signature)
+			if !ok || sig.Recv() == nil {
+				return
+			}
+			if _, isPtr := sig.Recv().Type().(*types.Pointer); !isPtr {
+				return
+			}
+			src := f.fromData(c.Call.Args[0], map[ssa.Value]bool{}, 0)
+			if src == "" {
+				return
+			}
+			n++
+			construct := "method " + g.FullName() + " on a data value"
+			if readOnly[g.Name()] {
+				r.ok("R18.6", ssaName(fn), construct, w.posOf(in.Pos()), "a read-only method", false)
+			} else {
+				r.bad("R18.6", ssaName(fn), construct, w.posOf(in.Pos()), "the receiver is "+src+" and the method is not known to leave its receiver alone (methods of math/big and the like store their result in the receiver): the render changes a value the caller passed in")
+			}
+		})
+	}
+	r.Counts["pointer-receiver methods of foreign types called on data values"] = n
 }
